@@ -285,7 +285,7 @@ func airtimeCases(s *cases.Set, r *cq.RNG, thorough bool) {
 
 	// Go side, exhaustively over the property's whole domain (10,649,600 inputs):
 	// the result is the composition of the three helpers (which are compared in Coq) and never decreases with the payload size.
-	nAll := 0
+	nAll, nFail := 0, 0
 	for sf := 5; sf <= 12; sf++ {
 		for _, bw := range bandwidths {
 			sd := airtime.CalculateLoRaSymbolDuration(sf, bw)
@@ -299,13 +299,18 @@ func airtimeCases(s *cases.Set, r *cq.RNG, thorough bool) {
 							nAll++
 							d, err := airtime.CalculateLoRaAirtime(pl, sf, bw, pre, airtime.CodingRate(cr), h, ld)
 							n, err2 := airtime.CalculateLoRaPayloadSymbolNumber(pl, sf, airtime.CodingRate(cr), h, ld)
-							rp := map[string]interface{}{"api": "airtime.CalculateLoRaAirtime", "payload": pl, "sf": sf, "bandwidth_khz": bw, "preamble": pre, "cr": cr, "header": h, "ldro": ld, "observed_ns": int64(d)}
-							k := fmt.Sprintf("sf=%d:bw=%d:pre=%d:cr=%d:h=%d:ldro=%d:pl=%d", sf, bw, pre, cr, b01(h), b01(ld), pl)
-							if err != nil || err2 != nil || d != pd+time.Duration(n)*sd {
-								s.Fail(cases.GoFail{Key: "airtime:composition:" + k, What: "CalculateLoRaAirtime differs from preamble duration + symbol number * symbol duration of its own helpers", Replay: rp})
-							}
-							if d < prev {
-								s.Fail(cases.GoFail{Key: "airtime:decreases:" + k, What: "airtime decreases when the payload grows by one byte", Replay: rp})
+							bad1 := err != nil || err2 != nil || d != pd+time.Duration(n)*sd
+							bad2 := d < prev
+							if (bad1 || bad2) && nFail < 40 {
+								nFail++
+								rp := map[string]interface{}{"api": "airtime.CalculateLoRaAirtime", "payload": pl, "sf": sf, "bandwidth_khz": bw, "preamble": pre, "cr": cr, "header": h, "ldro": ld, "observed_ns": int64(d)}
+								k := fmt.Sprintf("sf=%d:bw=%d:pre=%d:cr=%d:h=%d:ldro=%d:pl=%d", sf, bw, pre, cr, b01(h), b01(ld), pl)
+								if bad1 {
+									s.Fail(cases.GoFail{Key: "airtime:composition:" + k, What: "CalculateLoRaAirtime differs from preamble duration + symbol number * symbol duration of its own helpers", Replay: rp})
+								}
+								if bad2 {
+									s.Fail(cases.GoFail{Key: "airtime:decreases:" + k, What: "airtime decreases when the payload grows by one byte", Replay: rp})
+								}
 							}
 							prev = d
 						}
@@ -317,25 +322,27 @@ func airtimeCases(s *cases.Set, r *cq.RNG, thorough bool) {
 	s.Extra["airtime_go_side_domain_inputs"] = nAll
 	s.Exhaustive("airtime: all 10,649,600 inputs of the domain on the Go side (result = composition of the helpers; non-decreasing in the payload size)")
 
-	// full airtime rows evaluated in Coq against model and formula
+	// full airtime rows evaluated in Coq against model and formula: thorough = the whole domain
+	// (8 SF x 5 BW x 65 preambles x 4 CR x header x LDRO rows of 256 payload sizes = 10,649,600 inputs)
 	for sf := 5; sf <= 12; sf++ {
 		for _, bw := range bandwidths {
-			pres := []int{8, r.Intn(65)}
 			if thorough {
-				pres = []int{0, 1, 6, 8, 12, 32, 63, 64, r.Intn(65), r.Intn(65)}
-			}
-			for _, pre := range pres {
-				if thorough {
+				for pre := 0; pre <= 64; pre++ {
 					for cr := 1; cr <= 4; cr++ {
 						for hl := 0; hl < 4; hl++ {
 							airRow(s, sf, bw, pre, cr, hl&1 == 1, hl&2 == 2, "airtime-row")
 						}
 					}
-				} else {
+				}
+			} else {
+				for _, pre := range []int{8, r.Intn(65)} {
 					airRow(s, sf, bw, pre, 1+r.Intn(4), r.Bool(), r.Bool(), "airtime-row")
 				}
 			}
 		}
+	}
+	if thorough {
+		s.Exhaustive("airtime: all 10,649,600 inputs of the domain evaluated in Coq against the model and the formula (thorough tier)")
 	}
 	// every preamble length once, and every symbol/preamble duration of the domain
 	for pre := 0; pre <= 64; pre++ {
